@@ -31,10 +31,14 @@ def fvec(x):
     return [float(v) for v in np.asarray(x, dtype=float).reshape(-1)]
 
 
-def run_scalar(spec, rows):
+def run_scalar(spec, rows, prefix=()):
     eng = build.mk_engine(spec)
     eng.restart()
     outs, fz, degs = [], [], []
+    for row in prefix:  # an earlier batch of the same session, row by row
+        for v, x in zip(eng.input_variables, row):
+            v.value = float(x)
+        eng.process()
     for row in rows:
         for v, x in zip(eng.input_variables, row):
             v.value = float(x)
@@ -45,11 +49,26 @@ def run_scalar(spec, rows):
     return outs, fz, degs
 
 
-def run_batch(spec, rows, mode):
+def run_batch(spec, rows, mode, prefix=(), inplace=False):
     eng = build.mk_engine(spec)
     eng.restart()
     n = len(rows)
-    if mode == "per_var":
+    if prefix:
+        # the same engine already processed another batch (no restart in between), possibly of another size
+        for j, v in enumerate(eng.input_variables):
+            v.value = np.array([float(r[j]) for r in prefix])
+        eng.process()
+    if prefix and inplace and len(prefix) == n and mode == "per_var":
+        # the new batch is written into the arrays the variables already hold
+        for j, v in enumerate(eng.input_variables):
+            held = v.value
+            if isinstance(held, np.ndarray) and held.shape == (n,):
+                held[...] = np.array([float(r[j]) for r in rows])
+                if v.lock_range:
+                    v.value = held  # re-assign so that range locking applies to the new numbers
+            else:
+                v.value = np.array([float(r[j]) for r in rows])
+    elif mode == "per_var":
         for j, v in enumerate(eng.input_variables):
             v.value = np.array([float(r[j]) for r in rows])
     elif mode == "matrix":
@@ -97,7 +116,14 @@ def check_batch(ctx, case) -> None:
     ctx.cls("mode:" + mode)
     ctx.cls("profile:" + spec.get("profile", "?"))
     res = {}
-    for name, fn in (("scalar", lambda: run_scalar(spec, rows)), ("batch", lambda: run_batch(spec, rows, mode))):
+    prefix = case.get("prefix") or []
+    if mode not in ("per_var", "matrix"):
+        prefix = []
+    if prefix:
+        ctx.cls("second_batch_in_place" if case.get("inplace") and len(prefix) == len(rows) and mode == "per_var"
+                else "second_batch_same_size" if len(prefix) == len(rows) else "second_batch_other_size")
+    for name, fn in (("scalar", lambda: run_scalar(spec, rows, prefix)),
+                     ("batch", lambda: run_batch(spec, rows, mode, prefix, case.get("inplace")))):
         try:
             res[name] = ("ok", fn())
         except Exception as ex:  # noqa: BLE001 - the property is about which mode raises
@@ -175,7 +201,15 @@ def cases(draw, maxrows=12):
         if draw(st.integers(0, 2)) == 0:  # ... or after a row that drives Linear / Function outputs to +-inf
             rows[k - 1] = [draw(st.sampled_from([math.inf, -math.inf]))] * len(spec["inputs"])
     mode = draw(st.sampled_from(["per_var", "per_var", "matrix", "matrix", "matrix1d", "matrix0d"]))
-    return {"spec": spec, "rows": rows, "mode": mode}
+    prefix, inplace = [], False
+    k = draw(st.integers(0, 5))
+    if k == 0:  # an earlier batch of another size on the same engine
+        m = draw(st.sampled_from([x for x in (1, 2, 3, 5) if x != n] or [n + 1]))
+        prefix = [draw(gen.input_row(spec)) for _ in range(m)]
+    elif k == 1:  # an earlier batch of the same size, the new one written into the same arrays
+        prefix = [draw(gen.input_row(spec)) for _ in range(n)]
+        inplace = True
+    return {"spec": spec, "rows": rows, "mode": mode, "prefix": prefix, "inplace": inplace}
 
 
 def shard(ctx, shard, nshards, ex, maxrows):
